@@ -9,6 +9,7 @@ CONSTANTS
   AllowBreak = TRUE
   AllowStall = FALSE
   Cap = 1
+  AckDropSilently = FALSE
   AllowTopo = TRUE
   Warm = FALSE
   AllowRemove = TRUE
@@ -16,6 +17,6 @@ CONSTANTS
   FixGuardedDelete = TRUE
   FixOpening = TRUE
   FixPeerKey = TRUE
-INVARIANTS TypeOK
+INVARIANTS NoSilentLoss TypeOK
 PROPERTIES Converges
 CHECK_DEADLOCK FALSE
